@@ -212,6 +212,9 @@ for rnd in range(12 * SCALE):
         for delta in [D(days=-1), D(seconds=-1), D(0), D(seconds=1), D(days=1)]:
             fl = (True, True, True) if R.random() < 0.7 else (True, True, False)
             run_pair("overlap", successor(skr, zskpol, overlap=b + delta), skr, pol(fl), token_for(skr), desc={"bound": str(b), "delta_s": delta.total_seconds()})
+    # a gap is not an overlap: the next cycle starting as long AFTER the previous expiry as an acceptable overlap would start before it
+    for gap in (zskpol["min_overlap"], zskpol["max_overlap"], (zskpol["min_overlap"] + zskpol["max_overlap"]) / 2, D(seconds=1)):
+        run_pair("gap-of-overlap-size", successor(skr, zskpol, overlap=-gap), skr, pol(), token_for(skr), desc={"gap_s": gap.total_seconds()})
     # the KSR's own bounds decide, not the SKR's
     k = successor(skr, ksrxml.default_zsk_policy(min_overlap=D(days=5), max_overlap=D(days=10)), overlap=D(days=10, seconds=1))
     run_pair("overlap-own-policy", k, skr, pol(), token_for(skr))
@@ -249,6 +252,12 @@ for rnd in range(6 * SCALE):
     extra = copy.deepcopy({**skr, "bundles": [dict(b) for b in skr["bundles"]]})
     extra["bundles"][j] = dict(extra["bundles"][j], keys=extra["bundles"][j]["keys"] + [dict(ZSKS[4], ttl=172800)])
     variants.append(("key-added-after-signing", extra, n, False))
+    for what_, val_ in (("proto", 2), ("proto", 0), ("flags", 256), ("alg", 10)):
+        chg = copy.deepcopy({**skr, "bundles": [dict(b, keys=[dict(k) for k in b["keys"]]) for b in skr["bundles"]]})
+        jj = R.randrange(1, n) if n > 1 else 0
+        ki = next(i_ for i_, k in enumerate(chg["bundles"][jj]["keys"]) if k["flags"] == 257)
+        chg["bundles"][jj]["keys"][ki][what_] = val_
+        variants.append((f"ksk-{what_}-changed-after-signing", chg, n, False))
     for name, doc, cnt, want in variants:
         path = os.path.join(tmpd, "prev.xml")
         with open(path, "w") as f:
